@@ -105,9 +105,49 @@ def gen_policy():
     out += 'Definition ruledefault_copies_deprecated : bool := %s.\n\n' % b(
         'self._deprecated_rule = copy.deepcopy(deprecated_rule) or []' in rd)
 
+    # ---- shared-state write sites of the reload path (C20)
+    wsites = reload_write_sites(mod)
+    out += '(* statements that write the shared rule store / file-rule record / caches during load_rules *)\n'
+    out += 'Definition reload_write_sites : list str := %s.\n\n' % coq_list([coq_str(x) for x in wsites])
+
     # ---- decision trees
     out += dtree.gen_trees(mod)
     return out
+
+
+SHARED_ATTRS = ('rules', 'file_rules', '_file_cache', '_policy_dir_mtimes', 'policy_path', 'use_conf',
+                '_need_check_rule', '_informed_no_policy_file')
+RELOAD_FUNCS = ('load_rules', '_load_policy_file', 'set_rules', '_record_file_rules',
+                '_walk_through_policy_directory', '_is_directory_updated')
+
+
+def reload_write_sites(mod):
+    """(function: statement) for every statement in the reload path that assigns to, or calls a
+    mutator on, self.<shared attribute>"""
+    enf = find_class(mod, 'Enforcer')
+    sites = []
+    for fn in enf.body:
+        if not isinstance(fn, ast.FunctionDef) or fn.name not in RELOAD_FUNCS:
+            continue
+        for n in ast.walk(fn):
+            hit = False
+            if isinstance(n, (ast.Assign, ast.AugAssign)):
+                for t in (n.targets if isinstance(n, ast.Assign) else [n.target]):
+                    base = t
+                    while isinstance(base, (ast.Subscript,)):
+                        base = base.value
+                    if isinstance(base, ast.Attribute) and isinstance(base.value, ast.Name) and \
+                            base.value.id == 'self' and base.attr in SHARED_ATTRS:
+                        hit = True
+            if isinstance(n, ast.Expr) and isinstance(n.value, ast.Call) and \
+                    isinstance(n.value.func, ast.Attribute) and n.value.func.attr in MUTATORS:
+                recv = n.value.func.value
+                if isinstance(recv, ast.Attribute) and isinstance(recv.value, ast.Name) and \
+                        recv.value.id == 'self' and recv.attr in SHARED_ATTRS:
+                    hit = True
+            if hit:
+                sites.append('%s: %s' % (fn.name, ast.unparse(n).splitlines()[0]))
+    return sorted(set(sites))
 
 
 MUTATORS = {'append', 'extend', 'insert', 'remove', 'pop', 'clear', 'update', 'setdefault', 'add',
